@@ -137,6 +137,16 @@ def generate(module, cfg, workers=1, timeout=3600):
                       printed=len(vals), wall_s=round(time.time() - t0, 1))
 
 
+def preflight(trace_module, cfg=None):
+    """Parse / start the trace specification on an empty trace so that a broken module fails in a second."""
+    path = os.path.join(scratch(), f"empty_{trace_module}.ndjson")
+    open(path, "w").close()
+    rc, out = tlc(os.path.join(SPEC, "trace", trace_module + ".tla"), os.path.join(SPEC, "trace", (cfg or trace_module) + ".cfg"),
+                  workers=1, env={"TRACE_FILE": path}, timeout=300)
+    if "Model checking completed. No error has been found." not in out:
+        raise MachineryError(f"trace specification {trace_module} does not load:\n{out[-2500:]}")
+
+
 def _split_events(events, nchunks):
     """Split at trace (tid) boundaries into at most nchunks chunks of similar size."""
     if not events:
